@@ -165,7 +165,7 @@ class Data:
 
 
 def run_once(mod, fn, args, datas, mode, rand_fns=(), havoc=(), zero_fns=("@explicit_bzero", "@memset_s"), extra_cb=None, ret_havoc=(),
-             noop_fns=("@ascon_backend_init", "@ascon_backend_free")):
+             noop_fns=("@ascon_backend_init", "@ascon_backend_free"), exec_cls=None):
     """args: list of ('ptr', region, off) | ('int', v).  datas: list of Data.
     havoc: names of external functions whose first argument points to a 40-byte state that is replaced by fresh data.
     ret_havoc: external functions that only return a fresh data word.
@@ -253,7 +253,7 @@ def run_once(mod, fn, args, datas, mode, rand_fns=(), havoc=(), zero_fns=("@expl
         cb[n] = (lambda nm: lambda ex, a: ex.b.leak.append(("C", nm)))(n)
     if extra_cb:
         cb.update(extra_cb(fresh))
-    ex = llvmx.Exec(mod, fn, args, regions, cut=False, callbacks=cb)
+    ex = (exec_cls or llvmx.Exec)(mod, fn, args, regions, cut=False, callbacks=cb)      # exec_cls: tools/kern_bounds.py passes its stricter executor
     for d in datas:
         for off, val in d.pub_at.items():
             ex.mem.regions[d.name].cells[off] = ("v", ex.b.const(8, val))
@@ -431,9 +431,21 @@ for alg, klen, rate in (("ascon128", 16, 8), ("ascon128a", 16, 16), ("ascon80pq"
     api(alg + "_isap_aead_decrypt", ["isap/ascon-isap-%s.c" % suf, "aead/ascon-aead-common.c"], ["adlen", "mlen"], ishapes, dec_setup(80))
     api(alg + "_isap_aead_init", ["isap/ascon-isap-%s.c" % suf, "aead/ascon-aead-common.c"], [], [()],
         (lambda kl: lambda c: ([("ptr", "pk", 0), ("ptr", "k", 0)], [Data("pk", 80, out=True), Data("k", kl)]))(klen))
+    # ISAP key life cycle: the saved key image (both expanded states, 80 bytes) and the key object are secret
+    isap = ["isap/ascon-isap-%s.c" % suf, "aead/ascon-aead-common.c"]
+    api(alg + "_isap_aead_load_key", isap, [], [()], lambda c: ([("ptr", "pk", 0), ("ptr", "k", 0)], [Data("pk", 80, out=True), Data("k", 80)]))
+    api(alg + "_isap_aead_save_key", isap, [], [()], lambda c: ([("ptr", "pk", 0), ("ptr", "k", 0)], [Data("pk", 80), Data("k", 80, out=True)]))
+    api(alg + "_isap_aead_free", isap, [], [()], lambda c: ([("ptr", "pk", 0)], [Data("pk", 80)]))
     # incremental AEAD: posn is public bookkeeping inside the object
     poff = 72 if klen == 16 else 76
     inc = ["aead/ascon-aead-inc-%s.c" % suf, "aead/ascon-aead-common.c", "aead/ascon-aead-util.c"]
+    # init / reinit: key and nonce secret; public is only WHICH pointers are given (0 = NULL, 1 = a buffer, npub 2 = the object's
+    # own nonce field, the documented way to keep the session nonce)
+    for op, fresh_obj in (("init", True), ("reinit", False)):
+        api(alg + "_aead_" + op, inc, ["npub_given", "k_given"], [(n, k) for n in ((1, 0) if fresh_obj else (1, 0, 2)) for k in (1, 0)],
+            (lambda po, kl, fo: lambda c: ([("ptr", "state", 0), ("ptr", "state", 40 + kl) if c[0] == 2 else ("ptr", "npub", 0) if c[0] else ("ptr", None, 0),
+                                            ("ptr", "k", 0) if c[1] else ("ptr", None, 0)],
+                                           [Data("state", 80, out=True) if fo else Data("state", 80, pub_at={po: 3}), Data("npub", 16), Data("k", kl)]))(poff, klen, fresh_obj))
     api(alg + "_aead_start", inc, ["adlen"], [(a,) for a in L(rate)],
         (lambda po: lambda c: ([("ptr", "state", 0), ("ptr", "ad", 0), ("int", c[0])], [Data("state", 80, pub_at={po: 0}), Data("ad", nz(c[0]))]))(poff))
     blk = [(p, n) for p in (0, 1, rate - 1) for n in L(rate)]
@@ -460,6 +472,10 @@ api("ascon_mac_verify", PRF, ["inlen"], [(i,) for i in L(32)],
     lambda c: ([("ptr", "tag", 0), ("ptr", "in", 0), ("int", c[0]), ("ptr", "key", 0)], [Data("tag", 16), Data("in", nz(c[0])), Data("key", 16)]))
 api("ascon_prf_absorb", PRF, ["count", "mode", "inlen"], [(cn, md, i) for (cn, md) in ((0, 0), (5, 0), (31, 0), (0, 1), (7, 1)) for i in L(32)],
     lambda c: ([("ptr", "state", 0), ("ptr", "in", 0), ("int", c[2])], [Data("state", 48, pub_at={40: c[0], 41: c[1]}), Data("in", nz(c[2]))]))
+for fn_, ols in (("ascon_prf_reinit", None), ("ascon_prf_fixed_reinit", (0, 1, 16, 1 << 29))):
+    api(fn_, PRF, [] if ols is None else ["outlen"], [()] if ols is None else [(o,) for o in ols],
+        (lambda fixed: lambda c: ([("ptr", "state", 0), ("ptr", "key", 0)] + ([("int", c[0])] if fixed else []),
+                                  [Data("state", 48, pub_at={40: 5, 41: 1}), Data("key", 16)]))(ols is not None))
 api("ascon_prf_squeeze", PRF, ["count", "mode", "outlen"], [(cn, md, i) for (cn, md) in ((0, 0), (5, 0), (0, 1), (7, 1), (15, 1)) for i in L(16)],
     lambda c: ([("ptr", "state", 0), ("ptr", "out", 0), ("int", c[2])], [Data("state", 48, pub_at={40: c[0], 41: c[1]}), Data("out", nz(c[2]), out=True)]))
 
@@ -472,6 +488,8 @@ for a, x in (("", "xof"), ("a", "xofa")):
         [(o, k, sl, il) for o in (0, 1, 33, 70) for k in (16,) for sl in (0, 65) for il in (0, 5)],
         lambda c: ([("ptr", "out", 0), ("int", c[0]), ("ptr", "key", 0), ("int", c[1]), ("ptr", "salt", 0), ("int", c[2]), ("ptr", "info", 0), ("int", c[3])],
                    [Data("out", nz(c[0]), out=True), Data("key", nz(c[1])), Data("salt", nz(c[2])), Data("info", nz(c[3]))]), cfgs=HASH_CFGS)
+    api("ascon_hmac%s_reinit" % a, ["mac/ascon-hmac%s.c" % a] + H, ["keylen"], [(k,) for k in (0, 16, 32, 33, 64, 65, 100)],
+        lambda c: ([("ptr", "state", 0), ("ptr", "key", 0), ("int", c[0])], [Data("state", 48, pub_at={40: 3, 41: 0}), Data("key", nz(c[0]))]), cfgs=HASH_CFGS)
     # expand on an object whose counter/posn are public bookkeeping (prk and out are secret)
     api("ascon_hkdf%s_expand" % a, ["kdf/ascon-hkdf%s.c" % a, "mac/ascon-hmac%s.c" % a] + H, ["counter", "posn", "infolen", "outlen"],
         [(cn, ps, il, o) for (cn, ps) in ((1, 32), (2, 0), (2, 10), (255, 32), (0, 32), (0, 20)) for il in (0, 5) for o in (0, 1, 22, 23, 40)],
@@ -492,6 +510,11 @@ for a, x in (("", "xof"), ("a", "xofa")):
         [(k, i, cl, o) for k in (0, 16, 33) for i in (0, 1, 8, 19) for cl in (0, 5) for o in (16, 32, 41)],
         lambda c: ([("ptr", "key", 0), ("int", c[0]), ("ptr", "in", 0), ("int", c[1]), ("ptr", "custom", 0), ("int", c[2]), ("ptr", "out", 0), ("int", c[3])],
                    [Data("key", nz(c[0])), Data("in", nz(c[1])), Data("custom", nz(c[2])), Data("out", nz(c[3]), out=True)]))
+    for fam_, dir_ in (("kmac", "mac"), ("kdf", "kdf")):
+        api("ascon_%s%s_reinit" % (fam_, a), ["%s/ascon-%s%s.c" % (dir_, fam_, a), "hash/ascon-%s.c" % x], ["keylen", "customlen", "outlen"],
+            [(k, cl, o) for k in (0, 16, 33) for cl in (0, 5) for o in (0, 32, 41)],
+            lambda c: ([("ptr", "state", 0), ("ptr", "key", 0), ("int", c[0]), ("ptr", "custom", 0), ("int", c[1]), ("int", c[2])],
+                       [Data("state", 48, pub_at={40: 3, 41: 1}), Data("key", nz(c[0])), Data("custom", nz(c[1]))]))
     api("ascon_kdf" + a, ["kdf/ascon-kdf%s.c" % a, "hash/ascon-%s.c" % x], ["outlen", "keylen", "customlen"],
         [(o, k, cl) for o in (0, 1, 32, 41) for k in (0, 16, 33) for cl in (0, 5)],
         lambda c: ([("ptr", "out", 0), ("int", c[0]), ("ptr", "key", 0), ("int", c[1]), ("ptr", "custom", 0), ("int", c[2])],
